@@ -774,6 +774,36 @@ impl SendBuf {
     }
 }
 
+#[cfg(genmeta_gm_quic_verif)]
+impl SendBuf {
+    /// Verification hook (read-only): the colour map as `(offset, colour)` boundaries in
+    /// order, followed by a terminating `(size, 0xff)` entry.
+    /// Colour codes: 0 = Pending, 1 = Flighting, 2 = Lost, 3 = Recved.
+    pub fn verif_colour_map(&self) -> Vec<(u64, u8)> {
+        let mut map: Vec<(u64, u8)> = self
+            .state
+            .0
+            .iter()
+            .map(|s| {
+                let colour = match s.color() {
+                    Color::Pending => 0,
+                    Color::Flighting => 1,
+                    Color::Lost => 2,
+                    Color::Recved => 3,
+                };
+                (s.offset(), colour)
+            })
+            .collect();
+        map.push((self.state.size(), 0xff));
+        map
+    }
+
+    /// Verification hook (read-only): offset of the first byte still held in the data deque.
+    pub fn verif_base(&self) -> u64 {
+        self.offset
+    }
+}
+
 #[cfg(test)]
 mod tests {
     use qbase::net::tx::Signals;
